@@ -428,6 +428,20 @@ func init() {
 			if kind == "kgroups" {
 				lateConfigCases(add)
 			}
+			// unsigned values from 2^63 on as SCALARS, on both sides (seed C01-6, which the random values stopped producing)
+			{
+				big := uint64(1)<<63 + 5
+				c := eCase{Kind: kind, Policy: "error"}
+				c.Docs = []eDoc{
+					{ID: 1, Cons: []eConj{{{F: 0, Inc: true, V: tvUint("uint64", big)}}}},
+					{ID: 2, Cons: []eConj{{{F: 0, Inc: true, V: tvSlice("[]int", tvInt("int", 7))}}}},
+					{ID: 3, Cons: []eConj{{{F: 0, Inc: false, V: tvUint("uint", big+1)}}}},
+				}
+				for _, v := range []TV{tvUint("uint64", big), tvUint("uint", big), tvStr("9223372036854775813"), tvUint("uint64", big+1), tvSlice("[]uint64", tvUint("uint64", big)), tvInt("int", 7), tvUint("uint64", 1<<64-1)} {
+					c.Queries = append(c.Queries, eQuery{A: []eAssign{{F: 0, V: v}}})
+				}
+				add(c)
+			}
 			// a retrieval that is REFUSED in a smaller size group after a larger one has matched (a range field that only
 			// one-field conjunctions use, assigned a text its holder cannot read), straight before ordinary retrievals:
 			// nothing of the refused one may show in their answers
